@@ -19,7 +19,7 @@ pub enum Frag {
     /// hand-written multi-evidence fragments
     Evidence(usize),
     /// (environment opcode, variant): raw store / narrow mask / signed compare
-    Leaf(u8, usize),
+    Leaf(u16, usize),
 }
 
 const EVIDENCE: usize = 6;
@@ -29,14 +29,21 @@ const LEAVES: [u8; 17] = [
     0x30, 0x32, 0x33, 0x34, 0x3a, 0x41, 0x42, 0x43, 0x44, 0x45, 0x46, 0x47, 0x48, 0x5a, 0x36, 0x3d, 0x59,
 ];
 
-fn leaf_fragment(leaf: u8, variant: usize, s: U) -> Vec<Vec<Tok>> {
+/// Constants that several fragments use as plain values (never as slot numbers).
+const SHARED_CONSTANTS: [u64; 3] = [1, 0x2a, 0xdead_beef];
+
+fn leaf_fragment(leaf: u16, variant: usize, s: U) -> Vec<Vec<Tok>> {
+    // below 256: an environment opcode; from 256 on: one of the shared constants
+    let l = if leaf < 256 { o(leaf as u8) } else { p(SHARED_CONSTANTS[leaf as usize - 256]) };
     match variant {
         // the raw value is stored
-        0 => vec![vec![o(leaf), pu(s), o(op::SSTORE), o(op::STOP)]],
+        0 => vec![vec![l, pu(s), o(op::SSTORE), o(op::STOP)]],
         // one byte of it is stored
-        1 => vec![vec![p(0xff), o(leaf), o(op::AND), pu(s), o(op::SSTORE), o(op::STOP)]],
+        1 => vec![vec![p(0xff), l, o(op::AND), pu(s), o(op::SSTORE), o(op::STOP)]],
         // it is compared as a signed number and the flag is stored
-        _ => vec![vec![p(0), o(leaf), o(op::SLT), pu(s), o(op::SSTORE), o(op::STOP)]],
+        2 => vec![vec![p(0), l, o(op::SLT), pu(s), o(op::SSTORE), o(op::STOP)]],
+        // it is used as an account address and the balance is stored
+        _ => vec![vec![l, o(op::BALANCE), pu(s), o(op::SSTORE), o(op::STOP)]],
     }
 }
 
@@ -134,8 +141,13 @@ pub fn family(tier: Tier) -> Vec<Frag> {
         v.push(Frag::Evidence(i));
     }
     for l in LEAVES {
-        for variant in 0..3 {
-            v.push(Frag::Leaf(l, variant));
+        for variant in 0..4 {
+            v.push(Frag::Leaf(l as u16, variant));
+        }
+    }
+    for c in 0..SHARED_CONSTANTS.len() {
+        for variant in 0..4 {
+            v.push(Frag::Leaf(256 + c as u16, variant));
         }
     }
     v
@@ -317,7 +329,7 @@ impl Check for C11 {
         let n = family(tier).len();
         let rule = format!(
             "fragment family of {n} single-variable code fragments with an abstract slot (7 representative idiom kinds x 3 access modes \
-             x {} spellings{}, 3 uses (raw store, one-byte mask, signed compare) of each of 17 environment opcodes, 6 hand-written multi-evidence fragments: address use + zero test, caller stored + signed compare, counter, \
+             x {} spellings{}, 4 uses (raw store, one-byte mask, signed compare, account address) of each of 17 environment opcodes and of 3 shared constants, 6 hand-written multi-evidence fragments: address use + zero test, caller stored + signed compare, counter, \
              one-byte flag, length / call target, timestamp + selector-sized field). ALL ordered pairs (A, B) x 3 dispatcher shapes \
              (selector compare, reversed layout, two chained conditional jumps) x 2 slot assignments: layout(D(A,B)) must equal \
              layout(D(A)) u layout(D(B)) as entry sets. Renumbering: two-fragment programs x all 30 injective maps of their slots \
